@@ -434,6 +434,56 @@ def check_c10(ctx):
         ASSUME)
 
 
+def repo_suite_traces(ctx, rep):
+    """Trace source 3: the repository's own test suite, built with the verif tag and run with
+    VERIF_TRACE_FILE set; every library call it makes is validated against ExpTrace.tla."""
+    import subprocess
+    trace = ctx.path('repo_trace.ndjson')
+    env = dict(vlib.GOENV, VERIF_TRACE_FILE=trace)
+    try:
+        p = subprocess.run(['flock', '/tmp/verif-suite.lock', 'go', 'test', '-tags', 'verif', '-vet=off', '-count=1', '.'], cwd=vlib.REPO, env=env,
+                           stdout=subprocess.PIPE, stderr=subprocess.STDOUT, text=True, timeout=900)
+    except subprocess.TimeoutExpired:
+        raise Broken('the repository test suite (verif build) did not finish in 15 min')
+    if not os.path.exists(trace) or os.path.getsize(trace) == 0:
+        raise Broken('the repository test suite produced no trace (hooks missing?): ' + p.stdout[-500:])
+    rep.counts['repo_suite_exit'] = p.returncode
+    # one trace per (goroutine, call)
+    cur, traces = {}, []
+    for line in open(trace):
+        try:
+            r = json.loads(line)
+        except ValueError:
+            continue
+        g, e = r['g'], [x.encode('ascii', 'backslashreplace').decode() for x in r['e']]
+        if e[0] == 'call':
+            if cur.get(g):
+                traces.append(cur[g])
+            cur[g] = []
+            continue
+        cur.setdefault(g, []).append(e)
+    traces += [t for t in cur.values() if t]
+    traces = [t for t in traces if t]
+    of = ctx.path('repo_traces_obs.ndjson')
+    with open(of, 'w') as w:
+        for i, t in enumerate(traces):
+            w.write(json.dumps({'id': i + 1, 'events': t[:6000]}) + '\n')
+    files = vlib.shard_file(ctx, of, 8, 'repotr_obs')
+    drift = 0
+    for o, v in vlib.run_oracle(ctx, 'TraceOracle', files):
+        rep.evaluations += 1
+        rep.count('repo_trace:' + v['c18step'])
+        if len(o['events']) > 3:
+            rep.nontrivial.add('repo-trace-%d' % o['id'])
+        if v['conf'] == 'fail':
+            drift += 1
+        if v['c18step'] == 'fail':
+            rep.fail('c18step', {'family': 'repo-trace', 'events': o['events'][:200], 'at': v['confat'], 'why': v['confwhy']}, [],
+                     'a call made by the repository test suite: event %d: %s' % (v['confat'], v['confwhy']))
+    rep.counts['repo_trace_drift'] = drift
+    log('[repo-suite] %d call traces from the repository tests validated (%d drift)' % (len(traces), drift))
+
+
 def check_c18(ctx):
     sd = seeded(ctx)
     preds = ['c18once', 'c18key', 'c18never', 'c18step', 'c02', 'c03cut']
@@ -456,6 +506,7 @@ def check_c18(ctx):
     rep = run_batches(ctx, batches, preds, mcs, nontrivial=lambda o, v: len(o['docurls']) > 1,
                       sample=lambda o, v: o.get('cache') in ('reuse', 'preload') and len(o['loadss']) > 0,
                       post=c18_transparency)
+    repo_suite_traces(ctx, rep)
     return rep.finish(
         'model_checking',
         'Every enumerated multi-document graph; every definition expanded by ExpandSchemaWithBasePath / ExpandSchema with: no '
@@ -464,7 +515,10 @@ def check_c18(ctx):
         'requested twice (loader log), no request carries a fragment, a document present in the supplied cache (pre-loaded or '
         'loaded by an earlier call of the sequence) is never requested, the hook trace never shows a miss on a stored document '
         '(ExpTrace.tla), every result is bisimilar to the input and, for acyclic graphs, byte-identical across all cache modes '
-        '(transparency). Model level: C18_AtMostOnce on Expander.tla.',
+        '(transparency). Model level: C18_AtMostOnce on Expander.tla. Additional trace source: the repository\'s own test suite built '
+        'with the verif tag and run with VERIF_TRACE_FILE set - every library call its tests make (azure, bitbucket, k8s ... '
+        'fixtures) is cut into one event trace per call and validated by TraceOracle.tla / ExpTrace.tla (no miss on a stored '
+        'document, no loader call without a preceding miss; cycle-test conformance counted as drift).',
         ASSUME)
 
 
